@@ -106,6 +106,9 @@ var zzC19Ops = []zzC19Op{
 // need a writer to arrive in a narrow window.
 func zzC19Race(i int) {
 	ctx := context.Background()
+	if zz.Confirming() {
+		zzC19Contend(i)
+	}
 	for j := range zzC19Ops {
 		if !zz.Confirming() && j != i {
 			// translation-validation replays only stress the operation against itself, so that a
@@ -196,4 +199,47 @@ func ZZ_C19_lockorder_race() {
 	zz.Assert(zz.LockOrderCycles() == 0, "lock-order-acyclic")
 	zz.Assert(zz.GuardStats() > 0, "ghost lockset saw the store's accesses")
 	zz.Cover("all-ops", true)
+}
+
+// zzC19Contend (native confirmation only): test-and-set operations are probed for atomicity — eight
+// goroutines present one fresh key at the same moment; more than one success means the test and the
+// set do not happen under one critical section (no data race is involved, so the race detector is silent).
+func zzC19Contend(i int) {
+	name := zzC19Ops[i].name
+	if name != "SetClientAssertionJWT" && name != "MarkJWTUsedForTime" {
+		return
+	}
+	ctx := context.Background()
+	s := zzC19Store()
+	deadline := time.Now().Add(3 * time.Second)
+	for round := 0; round < 200000 && time.Now().Before(deadline); round++ {
+		jti := "fresh-" + time.Duration(round).String()
+		var wg sync.WaitGroup
+		start := make(chan struct{})
+		var mu sync.Mutex
+		ok := 0
+		for g := 0; g < 8; g++ {
+			wg.Add(1)
+			go func() {
+				defer wg.Done()
+				<-start
+				var err error
+				if name == "SetClientAssertionJWT" {
+					err = s.SetClientAssertionJWT(ctx, jti, time.Now().Add(time.Hour))
+				} else {
+					err = s.MarkJWTUsedForTime(ctx, jti, time.Now().Add(time.Hour))
+				}
+				if err == nil {
+					mu.Lock()
+					ok++
+					mu.Unlock()
+				}
+			}()
+		}
+		close(start)
+		wg.Wait()
+		if ok > 1 {
+			panic("ZZ-ATOMICITY " + name + ": one fresh jti accepted more than once")
+		}
+	}
 }
